@@ -41,6 +41,59 @@ func (t *T) SetA(v int) { t.A = v }
 func SetC(t *T, v int) { t.c = v }
 func GetC(t *T) int     { return t.c }
 
+// Declared named types of every scalar kind (abstract values [k |-> "named", base]).
+type (
+	NInt     int
+	NInt8    int8
+	NInt16   int16
+	NInt32   int32
+	NInt64   int64
+	NUint    uint
+	NUint8   uint8
+	NUint16  uint16
+	NUint32  uint32
+	NUint64  uint64
+	NFloat32 float32
+	NFloat64 float64
+	NString  string
+	NBool    bool
+)
+
+// NS is a struct whose fields have named numeric types (abstract value [k |-> "nstruct", ptr, f]):
+// field i holds f[i]; the kinds are those of nsKinds, in order.
+type NS struct {
+	A NInt
+	B NInt8
+	C NInt16
+	D NInt32
+	E NInt64
+	F NUint
+	G NUint8
+	H NUint16
+	I NUint32
+	J NUint64
+	L NFloat64
+}
+
+var nsKinds = []string{"int", "int8", "int16", "int32", "int64", "uint", "uint8", "uint16", "uint32", "uint64", "float64"}
+
+var namedTypes = map[string]reflect.Type{
+	"int": reflect.TypeOf(NInt(0)), "int8": reflect.TypeOf(NInt8(0)), "int16": reflect.TypeOf(NInt16(0)), "int32": reflect.TypeOf(NInt32(0)), "int64": reflect.TypeOf(NInt64(0)),
+	"uint": reflect.TypeOf(NUint(0)), "uint8": reflect.TypeOf(NUint8(0)), "uint16": reflect.TypeOf(NUint16(0)), "uint32": reflect.TypeOf(NUint32(0)), "uint64": reflect.TypeOf(NUint64(0)),
+	"float32": reflect.TypeOf(NFloat32(0)), "float64": reflect.TypeOf(NFloat64(0)), "string": reflect.TypeOf(NString("")), "bool": reflect.TypeOf(NBool(false)),
+}
+
+var nsType, nsPtrType = reflect.TypeOf(NS{}), reflect.TypeOf(&NS{})
+
+func namedKind(t reflect.Type) (string, bool) {
+	for k, nt := range namedTypes {
+		if nt == t {
+			return k, true
+		}
+	}
+	return "", false
+}
+
 type M = map[string]any
 
 // ---- exact integers ("Z") and numbers ---------------------------------------
@@ -154,12 +207,20 @@ func ElemType(name string) (reflect.Type, error) {
 	if t, ok := kindTypes[name]; ok {
 		return t, nil
 	}
+	if len(name) > 6 && name[:6] == "named:" {
+		if t, ok := namedTypes[name[6:]]; ok {
+			return t, nil
+		}
+	}
 	return nil, fmt.Errorf("unknown element kind %q", name)
 }
 
 func kindName(t reflect.Type) string {
 	if t.Kind() == reflect.Interface {
 		return "iface"
+	}
+	if k, ok := namedKind(t); ok {
+		return "named:" + k
 	}
 	if t == kindTypes["struct"] {
 		return "struct"
@@ -213,6 +274,86 @@ func buildRV(g any) (reflect.Value, error) {
 		return reflect.Value{}, nil
 	case k == "ptrnil":
 		return reflect.ValueOf((*T)(nil)), nil
+	case k == "nilptr":
+		t, err := ElemType(m["of"].(string))
+		if err != nil {
+			return reflect.Value{}, err
+		}
+		return reflect.Zero(reflect.PtrTo(t)), nil
+	case k == "ptr":
+		to, err := buildRV(m["to"])
+		if err != nil {
+			return reflect.Value{}, err
+		}
+		if !to.IsValid() {
+			return reflect.Value{}, fmt.Errorf("pointer to untyped nil")
+		}
+		p := reflect.New(to.Type())
+		p.Elem().Set(to)
+		return p, nil
+	case k == "named":
+		base, err := buildRV(m["base"])
+		if err != nil {
+			return reflect.Value{}, err
+		}
+		bk, _ := m["base"].(map[string]any)["k"].(string)
+		nt, ok := namedTypes[bk]
+		if !ok || !base.IsValid() {
+			return reflect.Value{}, fmt.Errorf("no named type for %q", bk)
+		}
+		return base.Convert(nt), nil
+	case k == "imap":
+		kk, _ := m["key"].(string)
+		kt := kindTypes[kk]
+		if named, _ := m["named"].(bool); named {
+			kt = namedTypes[kk]
+		}
+		et, err := ElemType(m["elem"].(string))
+		if err != nil {
+			return reflect.Value{}, err
+		}
+		mt := reflect.MapOf(kt, et)
+		if m["isnil"].(bool) {
+			return reflect.Zero(mt), nil
+		}
+		keys, _ := m["keys"].([]any)
+		vals, _ := m["vals"].([]any)
+		mv := reflect.MakeMap(mt)
+		for i := range keys {
+			kv, err := buildRV(M{"k": kk, "z": keys[i]})
+			if err != nil {
+				return reflect.Value{}, err
+			}
+			ev, err := buildRV(vals[i])
+			if err != nil {
+				return reflect.Value{}, err
+			}
+			if !ev.IsValid() {
+				ev = reflect.Zero(et)
+			}
+			mv.SetMapIndex(kv.Convert(kt), ev)
+		}
+		return mv, nil
+	case k == "nstruct":
+		fs, _ := m["f"].([]any)
+		if len(fs) != len(nsKinds) {
+			return reflect.Value{}, fmt.Errorf("nstruct needs %d fields", len(nsKinds))
+		}
+		p := reflect.New(nsType)
+		for i, f := range fs {
+			fv, err := buildRV(f)
+			if err != nil {
+				return reflect.Value{}, err
+			}
+			if fv.Type() != p.Elem().Field(i).Type() {
+				return reflect.Value{}, fmt.Errorf("nstruct field %d: %v is not %v", i, fv.Type(), p.Elem().Field(i).Type())
+			}
+			p.Elem().Field(i).Set(fv)
+		}
+		if m["ptr"].(bool) {
+			return p, nil
+		}
+		return p.Elem(), nil
 	case k == "bool":
 		return reflect.ValueOf(m["b"].(bool)), nil
 	case isInt(k) || isUint(k):
@@ -356,8 +497,32 @@ func projectRV(rv reflect.Value) any {
 		return M{"k": "struct", "ptr": false, "A": ZOfInt64(int64(x.A)), "B": Units(x.B), "c": ZOfInt64(int64(x.c)),
 			"F": NumJSON(x.F), "Any": Project(x.Any), "Hid": ZOfInt64(int64(x.Hid))}
 	}
+	if t == nsPtrType {
+		if rv.IsNil() {
+			return M{"k": "nilptr", "of": "nstruct"}
+		}
+		m := projectRV(rv.Elem()).(M)
+		m["ptr"] = true
+		return m
+	}
+	if t == nsType {
+		fs := []any{}
+		for i := 0; i < rv.NumField(); i++ {
+			fs = append(fs, projectRV(rv.Field(i)))
+		}
+		return M{"k": "nstruct", "ptr": false, "f": fs}
+	}
+	if bk, ok := namedKind(t); ok {
+		return M{"k": "named", "base": projectRV(rv.Convert(kindTypes[bk]))}
+	}
 	if t.PkgPath() != "" {
 		return M{"k": "?", "go": t.String()}
+	}
+	if t.Kind() == reflect.Ptr {
+		if rv.IsNil() {
+			return M{"k": "nilptr", "of": kindName(t.Elem())}
+		}
+		return M{"k": "ptr", "to": projectRV(rv.Elem())}
 	}
 	switch rv.Kind() {
 	case reflect.Bool:
@@ -382,7 +547,29 @@ func projectRV(rv reflect.Value) any {
 		}
 		return M{"k": "slice", "elem": kindName(t.Elem()), "isnil": rv.IsNil(), "items": items}
 	case reflect.Map:
-		if t.Key().Kind() != reflect.String {
+		if kk := t.Key().Kind().String(); isInt(kk) || isUint(kk) {
+			// integer-keyed map: keys in the code-unit order of their decimal strings
+			_, named := namedKind(t.Key())
+			ks := rv.MapKeys()
+			dec := func(v reflect.Value) string {
+				if isInt(kk) {
+					return fmt.Sprint(v.Int())
+				}
+				return fmt.Sprint(v.Uint())
+			}
+			sort.Slice(ks, func(i, j int) bool { return lessUnits(dec(ks[i]), dec(ks[j])) })
+			keys, vals := []any{}, []any{}
+			for _, k := range ks {
+				if isInt(kk) {
+					keys = append(keys, ZOfInt64(k.Int()))
+				} else {
+					keys = append(keys, ZOfUint64(k.Uint()))
+				}
+				vals = append(vals, projectRV(rv.MapIndex(k)))
+			}
+			return M{"k": "imap", "key": kk, "named": named, "elem": kindName(t.Elem()), "isnil": rv.IsNil(), "keys": keys, "vals": vals}
+		}
+		if t.Key() != kindTypes["string"] {
 			return M{"k": "?", "go": t.String()}
 		}
 		ks := rv.MapKeys()
@@ -554,6 +741,7 @@ function OBS(x){
 function OBSTOP(x, scalar){
   var r = {js:OBS(x), ty:UNITS(typeof x)};
   if (scalar) r.str = UNITS(String(x));
+  else { var fi = []; for (var k in x) fi.push(k); fi.sort(CMPU); r.forin = fi.map(UNITS); }
   return JSON.stringify(r);
 }
 `
